@@ -118,18 +118,44 @@ class GateCtx:
             out.add((b["b"], k))
         return out
 
-    def active_matcher(self, d):
+    def array_sources(self):
+        """activity vector local -> receiver string of the getActiveArray / getSelections call that fills it"""
+        out = {}
+        for n in self.f.walk():
+            if n["k"] == "VarDecl" and n.get("c") and n["c"][0] is not None:
+                for y in walk(n["c"][0]):
+                    if y["k"] == "MCall" and (y.get("callee") or "").split("::")[-1] in ("getActiveArray", "getSelections"):
+                        o = call_obj(y)
+                        out[n["d"]] = "this" if (o is None or o["k"] == "This") else show(o)
+        return out
+
+    def other_db(self, a, b):
+        """True when a and b are known to name two different data bases: two different parameters / members of the
+        function (locals may alias, calls are not compared)"""
+        if a is None or b is None or a == b:
+            return False
+        names = {p["n"] for p in self.f.params}
+        plain = lambda s: s in names or (s.startswith("_") and s.replace("_", "").isalnum())
+        return plain(a) and plain(b)
+
+    def active_matcher(self, d, db=None):
         pres = self.presence_flags()
         arrs = self.active_arrays()
+        srcs = self.array_sources() if db is not None else {}
 
         def m(core):
             if core["k"] == "MCall" and (core.get("callee") or "").split("::")[-1] in ACTIVE_CALLS:
                 if any(a is not None and a["k"] == "DeclRefExpr" and a.get("d") == d for a in call_args(core)):
+                    o = call_obj(core)
+                    if db is not None and o is not None and self.other_db(show(o), db):
+                        return None          # the activity of ANOTHER data base says nothing about this sample
                     return True
             if core["k"] in ("OpCall", "Index") and len(core.get("c") or []) == 2:
                 base, idx = core["c"]
                 if base is not None and base["k"] == "DeclRefExpr" and base.get("d") in arrs and \
                         idx is not None and idx["k"] == "DeclRefExpr" and idx.get("d") == d:
+                    if db is not None and self.other_db(srcs.get(base["d"]), db):
+                        return None
                     return True
             if core["k"] == "DeclRefExpr" and pres.get(core.get("d")) == "SEL":
                 return False          # no selection at all: vacuous pass
